@@ -5,11 +5,13 @@
 // checked against the `nostd` field of every case.
 //
 // Input line:  R <fmt> <nostd> <chans> <first> <N> ; <N*chans init window bit patterns> ; op , op ...
+//   chans 0 = the bare sample type as a mono frame (Rms<f32, _>, Rms<i16, _>, ...), 1..4 = arrays
 //   fmt 0 f32, 1 f64 (samples = bit patterns), 2 i16, 3 u8 (samples = values),
 //   10..21 = i8 i16 I24 i32 I48 i64 u8 u16 U24 u32 U48 u64 (samples = values; 1 or 2 channels)
 // Input line `P`: probe, prints `6 <build_nostd()>`.
 //   op: n v.. (next)  q v.. (next_squared)  c (current)  r (reset)  w (observe the window)
-// Output: per op `2 out-bits..` (reset: `7`; w: `5 window..`) ; `3 square_sum-bits..` (clone().into_parts());
+//       k (the detector is replaced by its clone(); every later op acts on the clone)
+// Output: per op `2 out-bits..` (reset: `7`; w: `5 window..`; k: `10`) ; `3 square_sum-bits..` (clone().into_parts());
 //   at the end `5 window..` (iteration order, flattened) ; `4 window_frames`;
 //   panicking constructor: `8 code`.  NaN canonicalised to the quiet NaN.
 use dasp_frame::Frame;
@@ -97,6 +99,11 @@ macro_rules! driver {
                         rms.reset();
                         ob(7, &[])
                     }
+                    'k' => {
+                        let c = rms.clone();
+                        rms = c;
+                        ob(10, &[])
+                    }
                     'w' => {
                         let (w, _) = rms.clone().into_parts();
                         let mut flat = Vec::new();
@@ -133,6 +140,73 @@ macro_rules! driver {
         }
     };
 }
+
+macro_rules! driver0 {
+    ($name:ident, $S:ty, $Fl:ty, $samp:ident, $flbits:ident, $flfrom:ident) => {
+        fn $name(first: usize, n: usize, init: &[i128], ops: &[ROp]) -> Vec<String> {
+            // the bare sample type as a mono frame (Frame for f32, i16, ...: to_float_frame = to_float_sample)
+            let data: Vec<$Fl> = (0..n).map(|i| $flfrom(init[i])).collect();
+            let window = match catch(|| Fixed::from_raw_parts(first, data)) {
+                Ok(w) => w,
+                Err(c) => return vec![ob(8, &[c as u64])],
+            };
+            let mut rms: Rms<$S, Vec<$Fl>> = Rms::new(window);
+            let mut out = Vec::new();
+            for op in ops {
+                let mut fr = <$S as dasp_sample::Sample>::EQUILIBRIUM;
+                for v in op.vals.iter() {
+                    fr = $samp(*v);
+                }
+                let r = catch(|| match op.kind {
+                    'n' => ob(2, &rms.next(fr).channels().map(|x| $flbits(x)).collect::<Vec<_>>()),
+                    'q' => ob(2, &rms.next_squared(fr).channels().map(|x| $flbits(x)).collect::<Vec<_>>()),
+                    'c' => ob(2, &rms.current().channels().map(|x| $flbits(x)).collect::<Vec<_>>()),
+                    'r' => {
+                        rms.reset();
+                        ob(7, &[])
+                    }
+                    'k' => {
+                        let c = rms.clone();
+                        rms = c;
+                        ob(10, &[])
+                    }
+                    'w' => {
+                        let (w, _) = rms.clone().into_parts();
+                        let mut flat = Vec::new();
+                        for f in w.iter() {
+                            for x in f.channels() {
+                                flat.push($flbits(x));
+                            }
+                        }
+                        ob(5, &flat)
+                    }
+                    other => panic!("unknown op {}", other),
+                });
+                match r {
+                    Ok(s) => out.push(s),
+                    Err(c) => {
+                        out.push(ob(8, &[c as u64]));
+                        return out;
+                    }
+                }
+                let (_, sum) = rms.clone().into_parts();
+                out.push(ob(3, &sum.channels().map(|x| $flbits(x)).collect::<Vec<_>>()));
+            }
+            let frames = rms.window_frames();
+            let (w, _) = rms.into_parts();
+            let mut flat = Vec::new();
+            for f in w.iter() {
+                for x in f.channels() {
+                    flat.push($flbits(x));
+                }
+            }
+            out.push(ob(5, &flat));
+            out.push(ob(4, &[frames as u64]));
+            out
+        }
+    };
+}
+
 
 driver!(r_f32_1, f32, f32, 1, s_f32, bits32, s_f32);
 driver!(r_f32_2, f32, f32, 2, s_f32, bits32, s_f32);
@@ -172,6 +246,21 @@ driver!(g_u48_2, dasp_sample::U48, f64, 2, s_u48, bits64, s_f64);
 driver!(g_u64_1, u64, f64, 1, s_u64, bits64, s_f64);
 driver!(g_u64_2, u64, f64, 2, s_u64, bits64, s_f64);
 
+driver0!(b_f32, f32, f32, s_f32, bits32, s_f32);
+driver0!(b_f64, f64, f64, s_f64, bits64, s_f64);
+driver0!(b_i16, i16, f32, s_i16, bits32, s_f32);
+driver0!(b_u8, u8, f32, s_u8, bits32, s_f32);
+driver0!(b_i8, i8, f32, s_i8, bits32, s_f32);
+driver0!(b_i24, dasp_sample::I24, f32, s_i24, bits32, s_f32);
+driver0!(b_i32, i32, f32, s_i32, bits32, s_f32);
+driver0!(b_i48, dasp_sample::I48, f64, s_i48, bits64, s_f64);
+driver0!(b_i64, i64, f64, s_i64, bits64, s_f64);
+driver0!(b_u16, u16, f32, s_u16, bits32, s_f32);
+driver0!(b_u24, dasp_sample::U24, f32, s_u24, bits32, s_f32);
+driver0!(b_u32, u32, f32, s_u32, bits32, s_f32);
+driver0!(b_u48, dasp_sample::U48, f64, s_u48, bits64, s_f64);
+driver0!(b_u64, u64, f64, s_u64, bits64, s_f64);
+
 pub fn nums(s: &str) -> Vec<i128> {
     s.split_whitespace().map(|t| t.parse::<i128>().expect("int token")).collect()
 }
@@ -183,7 +272,7 @@ pub fn run_r(line: &str) -> String {
     let (fmt, nostd, chans, first, n) = (h[0], h[1], h[2] as usize, h[3] as usize, h[4] as usize);
     assert!(nostd == build_nostd(), "case is for the other build configuration");
     let init = nums(parts[1]);
-    assert!(init.len() == n * chans);
+    assert!(init.len() == n * chans.max(1));
     let ops: Vec<ROp> = parts[2]
         .split(',')
         .filter(|s| !s.trim().is_empty())
@@ -193,9 +282,12 @@ pub fn run_r(line: &str) -> String {
         })
         .collect();
     for o in &ops {
-        assert!(o.vals.is_empty() || o.vals.len() == chans);
+        assert!(o.vals.is_empty() || o.vals.len() == chans.max(1));
     }
     let f = match (fmt, chans) {
+        (0, 0) => b_f32, (1, 0) => b_f64, (2, 0) => b_i16, (3, 0) => b_u8,
+        (10, 0) => b_i8, (11, 0) => b_i16, (12, 0) => b_i24, (13, 0) => b_i32, (14, 0) => b_i48, (15, 0) => b_i64,
+        (16, 0) => b_u8, (17, 0) => b_u16, (18, 0) => b_u24, (19, 0) => b_u32, (20, 0) => b_u48, (21, 0) => b_u64,
         (0, 1) => r_f32_1, (0, 2) => r_f32_2, (0, 3) => r_f32_3, (0, 4) => r_f32_4,
         (1, 1) => r_f64_1, (1, 2) => r_f64_2, (1, 3) => r_f64_3, (1, 4) => r_f64_4,
         (2, 1) => r_i16_1, (2, 2) => r_i16_2, (2, 3) => r_i16_3, (2, 4) => r_i16_4,
